@@ -358,16 +358,60 @@ fn viol(obl: &str, what: String, text: &str, shell: &str, class: &str) -> Violat
     }
 }
 
+/// The text readers know the emitted scripts by the names of their tables. If a name they rely
+/// on no longer occurs anywhere in the script of a grammar that uses every feature, the layout of
+/// the scripts has changed and the readers cannot judge: that is reported as undecided, never as
+/// a violation.
+pub fn layout_recognised(shell: &str) -> std::result::Result<(), String> {
+    const PROBE: &str = "cmd (--x=(a \"d1\" | b <U>) | k={{{ c1 }}} | <PATH> | foo \"dd\" || bar <Y> | <Z>) [<U>]...;\n<Y> ::= {{{ echo y }}};\n<Z@zsh> ::= {{{ _z }}};\n<Z> ::= {{{ z }}};\n";
+    let anchors: &[&str] = match shell {
+        "bash" => &["local -a literals=(", "literal_transitions", "command_transitions", "star_transitions", "subword_transitions", "max_fallback_level", "literal_transitions_level_", "commands_level_", "subword_transitions_level_", "_cmd_subword_", "_cmd_cmd_", "local state=", "complete -o nospace -F _cmd cmd"],
+        "fish" => &["literals", "descrs", "descr_literal_ids", "descr_ids", "literal_transitions_inputs", "literal_transitions_tos", "command_transitions", "star_transitions_from", "star_transitions_to", "subword_transitions_ids", "subword_transitions_tos", "max_fallback_level", "literal_froms_level_", "literal_inputs_level_", "commands_level_", "command_froms_level_", "subwords_level_", "subword_froms_level_", "_cmd_subword_", "_cmd_cmd_"],
+        "zsh" => &["literals", "descriptions", "descr_id_from_literal_id", "literal_transitions", "command_transitions", "compadd_transitions", "star_transitions", "subword_transitions", "max_fallback_level", "literal_transitions_level_", "commands_level_", "compadd_commands_level_", "subword_transitions_level_", "_cmd_subword_", "_cmd_cmd_"],
+        _ => &["literals", "descriptions", "literal_transitions", "command_transitions", "star_transitions", "subword_transitions", "max_fallback_level", "literal_transitions_level_", "commands_level_", "subword_transitions_level_", "_cmd_subword_", "_cmd_cmd_"],
+    };
+    let sh = shell.to_string();
+    let script = match guarded(move || -> std::result::Result<String, String> {
+        let comp = compile(PROBE, &sh)?;
+        let mut buf: Vec<u8> = vec![];
+        let r = match sh.as_str() {
+            "bash" => complgen::bash::write_completion_script(&mut buf, "cmd", &comp.min),
+            "zsh" => complgen::zsh::write_completion_script(&mut buf, "cmd", &comp.min),
+            "fish" => complgen::fish::write_completion_script(&mut buf, "cmd", &comp.min),
+            _ => complgen::pwsh::write_completion_script(&mut buf, "cmd", &comp.min),
+        };
+        r.map_err(|e| format!("{e:?}"))?;
+        Ok(String::from_utf8_lossy(&buf).into_owned())
+    }) {
+        Ok(Ok(s)) => s,
+        // the probe does not compile / emit on this tree: let the ordinary checks speak
+        _ => return Ok(()),
+    };
+    for a in anchors {
+        if !script.contains(a) {
+            return Err(format!("the {shell} script of a grammar using every feature no longer contains `{a}`: the layout of the emitted scripts has changed and the text reader of this check cannot judge it"));
+        }
+    }
+    Ok(())
+}
+
+thread_local! {
+    /// shells whose script layout was not recognised in this run: text comparison skipped
+    pub static SKIP_TEXT: std::cell::RefCell<std::collections::BTreeSet<String>> = std::cell::RefCell::new(Default::default());
+}
+
 pub fn check_one(text: &str, shell: &str, out: &mut Vec<Violation>) -> bool {
     let (t2, s2) = (text.to_string(), shell.to_string());
     let Ok(Ok(comp)) = guarded(move || compile(&t2, &s2)) else { return false };
     let comp2 = comp.min.clone();
     let sh = shell.to_string();
+    let skip_text = SKIP_TEXT.with(|s| s.borrow().contains(shell));
     let res = guarded(move || {
         let mut msgs = vec![];
         let v = shell_view(&comp2, &sh, &mut msgs);
         let mut text_msgs = vec![];
-        if sh == "bash" {
+        if skip_text {
+        } else if sh == "bash" {
             crate::c04bash::check_text(&comp2, &v, &mut text_msgs);
         } else {
             crate::c04text::check_text(&comp2, &v, &sh, &mut text_msgs);
@@ -395,6 +439,12 @@ pub fn run(thorough: bool, seed: u64) -> Report {
         exhaustive: true,
         ..Default::default()
     };
+    for sh in shells {
+        if let Err(why) = layout_recognised(sh) {
+            rep.undecided.push(why);
+            SKIP_TEXT.with(|s| s.borrow_mut().insert(sh.to_string()));
+        }
+    }
     let corpus = cpipe::corpus(thorough, seed);
     let mut accepted = 0u64;
     for gr in &corpus {
